@@ -211,6 +211,15 @@ func abstractDoc(doc document.Document) absDoc {
 	return out
 }
 
+func onlyRemovals(names string) bool {
+	for _, n := range strings.Split(strings.TrimPrefix(names, ":"), ":") {
+		if !strings.HasPrefix(n, "remove") {
+			return false
+		}
+	}
+	return names != ""
+}
+
 func mustJSON(s string) interface{} {
 	var v interface{}
 	if err := json.Unmarshal([]byte(s), &v); err != nil {
@@ -306,6 +315,12 @@ func C17(c *ev.Ctx) {
 			rep("partial-result-on-failure", abstractDoc(out))
 		case err == nil && !reflect.DeepEqual(abstractDoc(out), want):
 			rep("result-differs", abstractDoc(out))
+		case err == nil && onlyRemovals(names) && reflect.DeepEqual(from, want):
+			// removing absent ids is ignored: the document itself - not merely its abstraction - stays as it was
+			o, _ := json.Marshal(out)
+			if !reflect.DeepEqual(mustJSON(string(o)), mustJSON(string(snapshot))) {
+				rep("removal-of-absent-ids-changes-document", map[string]string{"before": string(snapshot), "after": string(o)})
+			}
 		}
 		if err == nil && e.Rt && reflect.DeepEqual(abstractDoc(out), want) {
 			// conversion round trip on the real result document
@@ -355,6 +370,6 @@ func C17(c *ev.Ctx) {
 	c.Cov.DistinctNontrivial = nt
 	c.Cov.Exhaustive = true
 	c.Cov.Extra["document_roundtrips"] = rts
-	c.Cov.Rule = "TLC explores every document reachable from the empty one within MaxCalls calls of ApplyPatches over the patch alphabet (add / remove keys, services, also-known-as URIs with existing, new and absent ids; replace; JSON patch that succeeds / fails) with every list of <= MaxList patches; each (document, list) edge is replayed on the real DocumentComposer twice: result vs Patch.tla's ordered-map model, input document and patch list compared with snapshots taken before the call, determinism, no partial result on failure; documents with all three sections are converted to patches by the real PatchesFromDocument and rebuilt (every third one enriched with opaque members whose names / values contain %, quotes, backslashes, non-ASCII, control characters, large / small numbers, nested and empty containers). Non-trivial: lists of >= 2 patches or failing lists."
+	c.Cov.Rule = "TLC explores every document reachable from the empty one within MaxCalls calls of ApplyPatches over the patch alphabet (add / remove keys, services, also-known-as URIs with existing, new and absent ids; replace; JSON patch that succeeds / fails) with every list of <= MaxList patches; each (document, list) edge is replayed on the real DocumentComposer twice: result vs Patch.tla's ordered-map model, input document and patch list compared with snapshots taken before the call, determinism, no partial result on failure, a list of removals that the model ignores (absent ids) leaves the document JSON-equal to the input; documents with all three sections are converted to patches by the real PatchesFromDocument and rebuilt (every third one enriched with opaque members whose names / values contain %, quotes, backslashes, non-ASCII, control characters, large / small numbers, nested and empty containers). Non-trivial: lists of >= 2 patches or failing lists."
 	c.Finish("model_checking")
 }
